@@ -1,4 +1,5 @@
 use crate::error::ZervError;
+use crate::version::zerv::bump::checked_bump;
 use crate::version::zerv::components::{
     Component,
     Var,
@@ -124,7 +125,7 @@ impl Zerv {
 
             let new_value = if let Some(bump_val) = bump_val {
                 // Bump: add to base value (either override or current)
-                base_value + bump_val as u64
+                checked_bump(base_value, bump_val, "component")?
             } else {
                 // No bump: use base value as-is
                 base_value
